@@ -67,6 +67,61 @@ def _loop_stores(path):
             and e.node.attr == 'loop' and e.data.get('value') is not None]
 
 
+#: the one object besides the state handle that remembers a loop, with the reason
+LOOP_KEEPERS = {
+    'usim.py.core.Environment.__aenter__':
+        'a SimPy environment is entered once (not re-entrant) and belongs to the run that '
+        'entered it',
+}
+
+
+def check_loop_never_kept(check, an: Analysis, rule: str):
+    """
+    Which loop is "the current one" is asked of the state handle every time: no object
+    keeps the loop it once saw in an attribute (it would keep scheduling into a finished
+    run when it is used in the next one).  Decided for every attribute store of the
+    package by the value that reaches it on the path.
+    """
+    n_stores, bad = 0, None
+    for fn in an.p.functions.values():
+        if isinstance(fn.node, ast.Lambda) or fn.module.name == HANDLER_MOD:
+            continue
+        stores = [n for n in rules._walk_own(fn.node) if isinstance(
+            n, (ast.Assign, ast.AnnAssign, ast.AugAssign)) and any(
+            isinstance(t, ast.Attribute) for t in (
+                n.targets if isinstance(n, ast.Assign) else [n.target])
+            for t in ([t] if not isinstance(t, ast.Tuple) else t.elts))]
+        if not stores or not any(
+                isinstance(n, ast.Attribute) and n.attr == 'loop' or
+                isinstance(n, ast.Name) and 'loop' in n.id.lower()
+                for n in ast.walk(fn.node)):
+            continue
+        owner = an.p.enclosing_self_class(fn)
+        try:
+            paths = an.paths(Callee(fn, owner.qn if owner else None))
+        except AnalysisError:
+            continue
+        for path in paths:
+            for index, event in enumerate(path.events):
+                if event.kind != 'store' or event.fn is not fn or \
+                        not isinstance(event.node, ast.Attribute) or \
+                        event.data.get('value') is None:
+                    continue
+                n_stores += 1
+                kept = rules.normalise_state_aliases(
+                    rules.value_text(path, index, event.data['value']))
+                if kept in ('__USIM_STATE__.loop', '__LOOP_STATE__.loop') and \
+                        fn.qn not in LOOP_KEEPERS:
+                    bad = bad or (fn, path, index)
+    check.instance(rule, 'the-current-loop-is-never-kept', bad is None and n_stores > 0,
+                   where_fn(bad[0]) if bad else 'usim/**',
+                   'no attribute store of the package keeps the loop read from the state '
+                   'handle (%d stores on paths looked at; named exception: %s)%s' % (
+                       n_stores, ', '.join(short(q) for q in LOOP_KEEPERS),
+                       '' if bad is None else ': %s does' % short(bad[0].qn)),
+                   path=rules.path_lines(bad[1], bad[2]) if bad else None, analysed=n_stores)
+
+
 def check_assign_restores(check, an: Analysis, rule: str):
     """
     Around the events of a run the state handle names the running loop, and whatever ends
@@ -199,6 +254,7 @@ def run(check, an: Analysis):
     check.instance('X', 'no-global-statements', n_global == 0, 'usim/**',
                    'no global/nonlocal statement in %d functions' % len(an.p.functions),
                    analysed=len(an.p.functions))
+    check_loop_never_kept(check, an, 'X')
     # ---- P ------------------------------------------------------------------
     check_assign_restores(check, an, 'P')
     run_m = an.callee(LOOP, 'run')
